@@ -113,12 +113,14 @@ def add_obligations(res, tree, rule: str, scope: str = "all") -> int:
             continue
         ax, roots = env_axes(ea)
         conflicts = ax.bind_conflicts()
-        sites = check_sites(ea, ax, conflicts) if scope in ("all", "mask") else []
+        sites = check_sites(ea, ax, conflicts) if scope in ("all", "mask", "generator") else []
         env = short(ea.cls.qual)
         seen = set()
         for s in sites:
             loc, fn, src = site_of(s["term"])
             if scope == "mask" and not any(h in fn.lower() for h in MASK_FUNC_HINTS):
+                continue
+            if scope == "generator" and not any(h in fn for h in (".generator.", "maze_generation", "utils_spawn", "._sample", "create_flat_mine")):
                 continue
             key = (s["kind"], fn, src)
             if key in seen or key in seen_global:
@@ -128,7 +130,7 @@ def add_obligations(res, tree, rule: str, scope: str = "all") -> int:
             res.add(rule, loc, fn, f"{s['kind']}: {src}", s["ok"], s["detail"])
             n += 1
             per_env[ea.cls.name] = per_env.get(ea.cls.name, 0) + 1
-        if scope == "all":
+        if scope in ("all", "generator"):
             for f, pn, pv, caller, node, have, want in conflicts:
                 loc = f"{caller.module.relpath}:{getattr(node, 'lineno', 0)}" if caller is not None and node is not None else f.loc()
                 key = ("bind", f.qual, pn, loc)
